@@ -262,6 +262,8 @@ Definition c12_wasm_check : bool :=
 Definition find_wasm (v : string) : option wasm_row :=
   find (fun w => String.eqb (w_variant w) v) wasm_table.
 
+Definition wasm_variant_names : list string := map w_variant wasm_table.
+
 (* kill switch: the admin check stands before any write *)
 Definition kill_switch_ok : bool :=
   match find_handler "esm.MsgKillSwitch" with
